@@ -50,7 +50,7 @@ func (c *regexpPatternChecker) VisitExpr(x ast.Expr) {
 		return
 	}
 
-	switch qualifiedName(call.Fun) {
+	switch resolvedQualifiedName(c.ctx, call.Fun) {
 	case "regexp.Compile", "regexp.CompilePOSIX", "regexp.MustCompile", "regexp.MustCompilePosix":
 		cv := c.ctx.TypesInfo.Types[call.Args[0]].Value
 		if cv == nil || cv.Kind() != constant.String {
